@@ -253,6 +253,18 @@ func c01f1(env *core.Env) {
 			if int64(len(res.Data)) > res.Desc.Size {
 				env.Failf("C01/GetBlobRange/more-than-blob", "%s [network: %s] delivered %d bytes, more than the blob size %d, and ended cleanly", op, how, len(res.Data), res.Desc.Size)
 			}
+			// A range read has no digest to check its bytes against, but it knows how many
+			// there must be: too short or too long for the range asked for (within the
+			// size the response itself states) is no clean end-of-stream either.
+			if !degenerate && res.Desc.Size >= 0 {
+				o1 := op.O1
+				if o1 < 0 || o1 > res.Desc.Size {
+					o1 = res.Desc.Size
+				}
+				if want := o1 - op.O0; want >= 0 && int64(len(res.Data)) != want {
+					env.Failf("C01/GetBlobRange/wrong-length-clean-eof/"+how, "%s [network: %s] ended cleanly with %d bytes; the range asked for, within the %d bytes the response says the blob has, is %d bytes", op, how, len(res.Data), res.Desc.Size, want)
+				}
+			}
 			if how == "clean" {
 				o1 := op.O1
 				if o1 < 0 || o1 > int64(len(it.data)) {
